@@ -65,6 +65,10 @@ type cell struct {
 	path string    // field path below the root
 }
 
+// cellThroughCopies: cellOf follows a local that only holds a copy back to what it was copied from
+// (switched on by the rules that ask where a value comes from rather than which variable it is).
+var cellThroughCopies = false
+
 func cellOf(v ssa.Value) cell {
 	c := cell{}
 	for d := 0; d < 16; d++ {
@@ -97,6 +101,27 @@ func cellOf(v ssa.Value) cell {
 				c.root = x.X
 				// a local holding a copy of an element keeps the element identity below
 				return c
+			}
+			c.root = v
+			return c
+		case *ssa.Alloc:
+			// a local that only ever holds a copy of another variable or element (a by-value
+			// parameter of an inlined helper, `x := y`): the cell is the one copied from
+			if ss := storesTo(x); cellThroughCopies && len(ss) == 1 {
+				if ld, ok := ss[0].(*ssa.UnOp); ok && ld.Op == token.MUL {
+					if _, isAddr := ld.X.(*ssa.Alloc); isAddr {
+						v = ld.X
+						continue
+					}
+					if _, isAddr := ld.X.(*ssa.IndexAddr); isAddr {
+						v = ld.X
+						continue
+					}
+					if _, isAddr := ld.X.(*ssa.FieldAddr); isAddr {
+						v = ld.X
+						continue
+					}
+				}
 			}
 			c.root = v
 			return c
